@@ -47,7 +47,7 @@ static int kernel_cpulist(const char *c, unsigned n, unsigned long *ref)
 {
   unsigned i = 0; int last = -1; unsigned long m = 0;
   if (n && c[n - 1] == '\n') n--;
-  if (n == 0) { *ref = 0; return 1; }            /* an empty list (no CPU) */
+  if (n == 0) return 0;            /* an empty list: hwloc reads it as {0} (strtoul of nothing); no clause of C18 says what an empty list means, so it is outside this harness (DESIGN §7, false alarms) */
   while (i < n) {
     if (c[i] < '0' || c[i] > '9') return 0;
     if (c[i] == '0' && i + 1 < n && c[i + 1] >= '0' && c[i + 1] <= '9') return 0;      /* the kernel prints %u: no leading zero (the parser reads base 0) */
@@ -74,11 +74,14 @@ VP_HARNESS(h_cpulist_bytes)
   hwloc_bitmap_set(set, 1023); hwloc_bitmap_zero(set);
   VP_SYMBOLIC_PHASE(1);
   int r = hwloc__read_path_as_cpulist("/sys/x", set, -1);
+#ifndef VP_CBMC
+  fprintf(stderr, "cpulist_bytes: len=%u bytes=%02x %02x %02x r=%d set=%#lx full=%d last=%d ref=%#lx\n", len, (unsigned char) vp_content[0], L > 1 ? (unsigned char) vp_content[1] : 0, L > 2 ? (unsigned char) vp_content[2] : 0, r, hwloc_bitmap_to_ulong(set), hwloc_bitmap_isfull(set), hwloc_bitmap_last(set), ref);
+#endif
   VP_CHECK(r == 0, "cpulist: a kernel-format list is accepted");
   VP_CHECK(vp_closes == 1, "cpulist: the file is closed exactly once");
   VP_CHECK(!hwloc_bitmap_isfull(set) && hwloc_bitmap_to_ulong(set) == ref && hwloc_bitmap_last(set) < 64, "cpulist: the set is exactly the listed PUs");
   VP_WITNESS_IF(L >= 3 ? ref == 0xe : ref == 0x1000, "a list read (1-3, or PU 12 in the two-byte tier)");
-  VP_WITNESS_IF(ref == 0, "an empty list read");
+  VP_WITNESS_IF(ref == 0x1, "the list \"0\" read");
 }
 
 /* ---- CPU-less NUMA node locality from the distance matrix --------------------------------------------------------------------- */
